@@ -56,7 +56,7 @@ class List(Expression):
         if self.max_len is None:
             has_room = True
         else:
-            has_room = LEN(staging) < Code(self.max_len)
+            has_room = LEN(staging) < _bound(self.max_len)
 
         with out.WHILE(has_room):
             if self.expr.can_partially_succeed():
@@ -77,11 +77,17 @@ class List(Expression):
         if self.min_len == 1 or self.min_len == '1':
             condition = staging
         else:
-            condition = LEN(staging) >= Code(self.min_len)
+            condition = LEN(staging) >= _bound(self.min_len)
 
         with out.IF(condition):
             out += RESULT << staging
             out += STATUS << True
+
+
+def _bound(value):
+    # A bound may be inline Python code with operators that bind more loosely
+    # than a comparison (like "n if n < 3 else 1"), so keep it together.
+    return Code(f'({value})') if isinstance(value, str) else Code(value)
 
 
 def _check_min_and_max_len(min_len, max_len):
